@@ -13,6 +13,7 @@ import (
 	"os"
 	"path/filepath"
 	"runtime"
+	"sync"
 	"syscall"
 	"time"
 
@@ -120,9 +121,18 @@ type drv struct {
 
 	nontrivial bool
 	bufs       [][]byte
+	cls        string
+	spare      []*sonic.Timer
+	mu         sync.Mutex
+	abandoned  bool // the watchdog gave up on this scenario (its goroutine is blocked for good)
 }
 
 func (d *drv) emit(e Ev) {
+	d.mu.Lock()
+	defer d.mu.Unlock()
+	if d.abandoned {
+		return
+	}
 	d.i++
 	e.C, e.Sid, e.I = "rx", d.sid, d.i
 	if e.Sched == nil {
@@ -439,6 +449,11 @@ func (d *drv) exec(c Ev) {
 		err := d.timers[c.T-1].Close()
 		if err == nil {
 			d.tdue[c.T-1] = false
+			// the program goes on creating timers: the kernel may hand the closed
+			// timer's descriptor number to the next one
+			if sp, e2 := sonic.NewTimer(d.ioc); e2 == nil {
+				d.spare = append(d.spare, sp)
+			}
 		}
 		cls, note := errClass(err)
 		d.emit(Ev{Ev: "TCloseE", T: c.T, Err: cls, Note: note})
@@ -533,6 +548,19 @@ func (d *drv) env(what string, oi int, n int) {
 				note += " barrier-timeout"
 			}
 		}
+	case "yank":
+		// replace the descriptor underneath the object: the number stays
+		// reserved (it now refers to /dev/null) but is no longer in the epoll set,
+		// so every later epoll_ctl on it fails
+		nul, err := syscall.Open("/dev/null", syscall.O_RDWR, 0)
+		if err != nil {
+			note = "open /dev/null: " + err.Error()
+		} else {
+			if err := unix.Dup2(nul, ob.fd); err != nil {
+				note = "dup2: " + err.Error()
+			}
+			syscall.Close(nul)
+		}
 	case "fillw":
 		junk := make([]byte, 65536)
 		for k := 0; k < 100000; k++ {
@@ -585,7 +613,9 @@ func parse(h []Ev) (map[string][]Ev, Ev) {
 				stack = stack[:len(stack)-1]
 			}
 		case "Call", "CancelB", "CloseB", "PostE", "TSchedB", "TCancelE", "TCloseE", "Env", "PollB":
-			script[cur] = append(script[cur], e)
+			if e.Note != "drain" { // the model's drain phase is not replayed: the driver has its own
+				script[cur] = append(script[cur], e)
+			}
 		}
 	}
 	return script, reset
@@ -642,6 +672,9 @@ func (d *drv) drain() {
 
 func (d *drv) cleanup() {
 	for _, t := range d.timers {
+		_ = t.Close()
+	}
+	for _, t := range d.spare {
 		_ = t.Close()
 	}
 	for _, ob := range d.objs {
@@ -709,18 +742,47 @@ func (d *drv) scenario(h []Ev) (err error) {
 	d.ioc.Dispatched = d.base
 	d.t0 = time.Now()
 	d.emit(Ev{Ev: "Reset", Kinds: reset.Kinds, Cls: reset.Cls, Lim: lim, N: reset.N, Dispatched: 0})
+	d.cls = reset.Cls
 	for _, c := range d.script["top"] {
 		d.exec(c)
 		d.sample()
 	}
-	d.drain()
+	if d.cls == "runpending" {
+		d.runPending()
+	} else {
+		d.drain()
+	}
 	d.emit(Ev{Ev: "End"})
 	return nil
 }
 
+// runPending makes every parked operation completable, then calls
+// IO.RunPending, which must return exactly when nothing is in flight any more.
+// (Scenarios of this class start operations and timers from the top level only
+// and use no repeating timers, so RunPending can terminate.)
+func (d *drv) runPending() {
+	for k, ob := range d.objs {
+		if ob.closed {
+			continue
+		}
+		if ob.inR != 0 && ob.peer >= 0 || ob.inR != 0 && ob.kind == "lst" {
+			d.env("send", k+1, 1)
+			d.sample()
+		}
+		if ob.inW != 0 && ob.peer >= 0 && (ob.kind == "sock" || ob.kind == "pipeW") {
+			d.env("drainw", k+1, 1)
+			d.sample()
+		}
+	}
+	d.emit(Ev{Ev: "RunPendB"})
+	err := d.ioc.RunPending()
+	cls, note := errClass(err)
+	d.emit(Ev{Ev: "RunPendE", Err: cls, Note: note})
+	d.sample()
+}
+
 // Run replays every history of a.In and writes the trace to a.Out.
 func Run(a tr.Args) error {
-	runtime.LockOSThread()
 	w, err := tr.NewWriter(a.Out)
 	if err != nil {
 		return err
@@ -742,12 +804,35 @@ func Run(a tr.Args) error {
 		if err := json.Unmarshal(raw, &h); err != nil {
 			return err
 		}
-		d.sid = idx
 		sum.Scenarios++
-		if err := d.scenario(h); err != nil {
-			return err
+		// every scenario runs on its own goroutine under a watchdog: a loop that
+		// blocks for good (RunPending that never returns, a deadlock) is
+		// abandoned and recorded as a Stuck event
+		sd := &drv{w: w, dir: d.dir, slow: d.slow, tickUs: d.tickUs, sid: idx + a.SidBase}
+		res := make(chan error, 1)
+		go func() {
+			runtime.LockOSThread()
+			res <- sd.scenario(h)
+		}()
+		select {
+		case err := <-res:
+			if err != nil {
+				return err
+			}
+		case <-time.After(time.Duration(2500*d.slow) * time.Millisecond):
+			api := "scenario"
+			if sd.cls == "runpending" {
+				api = "RunPending"
+			}
+			// the scenario goroutine is blocked in the kernel; nothing else writes the trace now
+			sd.emit(Ev{Ev: "Stuck", Api: api})
+			sd.emit(Ev{Ev: "End"})
+			sd.mu.Lock()
+			sd.abandoned = true
+			sd.mu.Unlock()
+			sum.Notes = "stuck scenarios present"
 		}
-		if d.nontrivial {
+		if sd.nontrivial {
 			sum.Nontrivial++
 		}
 		return nil
